@@ -43,11 +43,13 @@ CONDS_FAIL = ("nosuch_name", "1 / 0", "host_raise('true')", "host_raise('1')", "
 WATCHES_OK = ("i", "val", "name", "person", "person.name", "person.greet()", "data", "data['l']", "G_HOST", "G_LIST",
               "len(name)", "max(i, 3)", "str(val) + name", "[i, val]", "flag and i",
               "sum(v * i for v in data['l'])", "(lambda: name)()", "sorted(data['l'], key=lambda v: -v * i)",
-              "{n_: i for n_ in name[:2]}")
+              "{n_: i for n_ in name[:2]}", "(w_tmp := i + 7) * 2")
 WATCHES_BAD = ("nosuch", "1 / 0", "person.nope", "data['zz']", "time_ns", "LocationAction", "deep", "uuid",
                "FrameCollector", "host_raise('x')", "host_raise_base('b')", "TriggerContext", "str2bool",
                # the failure itself cannot be turned into text (KeyError's text is the repr of the key)
-               "host_raise_rude()", "G_TAB[G_BADNUM]", "x")
+               "host_raise_rude()", "G_TAB[G_BADNUM]", "x",
+               # bound (:=) by another watch of the same tracepoint, a name of no frame
+               "w_tmp")
 
 
 def generate(seed, tier):
